@@ -9,7 +9,7 @@ from simkit.pipe import open_frontend
 
 ID = "C01"
 LEVEL = "exploration"
-RUNS = {"quick": 12000, "thorough": 400000}
+RUNS = {"quick": 60000, "thorough": 1500000}
 RULE = ("seeded runs of the fault-free pipeline: statement sequence x knob swarm x read/step schedule; "
         "a run is non-trivial when it parsed >=2 statements; distinct = distinct "
         "(configuration, statement sequence) pairs")
